@@ -135,10 +135,12 @@ class Excel:
 
     @classmethod
     def _get_suspicious_constructions(cls, value):
-        value = str(value)
-        suspicious_constructions = re.findall(r'[a-zA-Z_\d]+\(.*?\)', value)
+        value = str(value.text if isinstance(value, ArrayFormula) else value)
+        # an identifier (not starting with a digit) followed by an argument list, which may span several lines
+        suspicious_constructions = re.findall(r'[a-zA-Z_][a-zA-Z_\d]*\(.*?\)', value, re.DOTALL)
         if suspicious_constructions:
-            return [i for i in suspicious_constructions if not re.match(r'[A-Z]+\(', i)]
+            # Excel function names are upper-case letters and digits (SUM, LOG10)
+            return [i for i in suspicious_constructions if not re.match(r'[A-Z][A-Z\d]*\(', i)]
 
         return []
 
